@@ -55,7 +55,10 @@ def check(ctx):
              "children list")
     ctx.rule("C03-D", "line-piece accounting: tagged strings/lines are destroyed only at reviewed sites")
     ctx.rule("C03-E", "prefix iterators are infinite")
+    ctx.rule("C03-F", "zero-width skip: beyond the known integer-division case (K3) a column holding text cannot be shrunk to "
+             "zero — the layout decision and the shrink loop agree on the separator count")
     ctx.rule("C03-G", "no order-perturbing operation on node/row/cell/renderer/line sequences outside reviewed idioms")
+    ctx.guard("C03-F", widths.rule_min_size_matches_shrink, "C03-F")
     for rid, fn in (("C03-A", rule_a), ("C03-B", rule_b), ("C03-C", rule_c), ("C03-D", rule_d), ("C03-E", rule_e),
                     ("C03-G", rule_g)):
         ctx.guard(rid, fn)
